@@ -8,9 +8,12 @@ def probe(unit, repo=None):
     if repo: env['VERIF_REPO'] = repo
     p = subprocess.run([sys.executable, os.path.join(V, 'tools', 'extract.py'), unit], env=env, capture_output=True, text=True)
     if p.returncode: return dict(error=p.stdout[-500:])
-    meta = json.load(open(os.path.join(V, 'build', unit + '_probe.meta.json')))
+    import hashlib
+    rp = os.path.realpath(repo or os.environ.get('VERIF_REPO', '/repo'))
+    bd = os.path.join(V, 'build') if rp == '/repo' else os.path.join(V, 'build', 'alt-' + hashlib.sha256(rp.encode()).hexdigest()[:10])
+    meta = json.load(open(os.path.join(bd, unit + '_probe.meta.json')))
     pr = {c['name']: c for c in meta['clauses'] if 'PROBE' in c['props']}
-    q = subprocess.run(['verus', unit + '_probe.rs', '--triggers-mode', 'silent', '--multiple-errors', '1', '--error-format=json'], cwd=os.path.join(V, 'build'), capture_output=True, text=True)
+    q = subprocess.run(['verus', unit + '_probe.rs', '--triggers-mode', 'silent', '--multiple-errors', '1', '--error-format=json'], cwd=bd, capture_output=True, text=True)
     hit = set()
     for l in q.stderr.split('\n'):
         l = l.strip()
